@@ -37,6 +37,10 @@ def all_rules(tier):
     for n in (1, 2, 3):
         for seq in itertools.product(["mov", "push"], repeat=n):
             rules.append(e1.RuleCase("seq", list(seq), "c11", want=W))
+    # rules with capture groups (the regex then has numbered groups; results must still be whole matches)
+    for pat in (["&i", "&i"], ["&i", "push"], [{"push": ["&x"]}, {"push": ["&x"]}], [{"mov": ["&x", "&y"]}, "push"],
+                [{"mov": ["&x", "&y"]}], ["&i", "&j", "&i"], [{"push": ["&genreg-1.64"]}, {"push": ["&genreg-1.64"]}]):
+        rules.append(e1.RuleCase("capture", pat, "c11", want=W))
     c02 = importlib.import_module("checks.C02")
     c04 = importlib.import_module("checks.C04")
     r = rm.Ref()
